@@ -395,7 +395,8 @@ func (k Keeper) CloseEnglishAuction(ctx sdk.Context, englishAuction types.Auctio
 			return err
 		}
 
-		err = k.collector.SetNetFeeCollectedData(ctx, englishAuction.AppId, englishAuction.CollateralAssetId, englishAuction.CollateralToken.Amount)
+		// the lot has left the collector: it is no longer part of the net fees
+		err = k.collector.DecreaseNetFeeCollectedData(ctx, englishAuction.AppId, englishAuction.CollateralAssetId, englishAuction.CollateralToken.Amount)
 		if err != nil {
 			return types.ErrorUnableToSetNetFees
 		}
